@@ -358,6 +358,9 @@ def stored_list_in_scope(ctx, stored, unordered, cap):
     return got == want
 
 
+_BETWEEN = 0
+
+
 def registry_history(concepts, case, rng, queries):
     """A context is pickled and discarded, a same-label context with another table is built (its
     classes may land where the discarded ones lived) and pickled too, then both pickles are loaded:
@@ -380,6 +383,13 @@ def registry_history(concepts, case, rng, queries):
     blob_a = pickle.dumps(a)
     del a
     gc.collect()
+    # where the next classes land depends on what is allocated in between: 0-7 unrelated contexts,
+    # rotating from one history to the next
+    global _BETWEEN
+    _BETWEEN = (_BETWEEN + 1) % 8
+    for filler in range(_BETWEEN):
+        live.append(concepts.Context(['u%d' % filler], ['v%d' % filler], [(False,)]))
+    COL.count('registry_history_fillers_%d' % _BETWEEN)
     b = call(concepts.Context, objects, properties, bools(rows_b))
     if b is RAISED:
         return
